@@ -383,17 +383,22 @@ Definition key_of_delivered (l : list omsg) (pe : N * event) : option (option st
   | None => None
   end.
 
+(* (event, key it carried at the broker) for every published event that reached the broker *)
+Definition delivered_keys (flat : list omsg) (pubs : list (N * event)) : list (event * option str) :=
+  flat_map (fun pe => match key_of_delivered flat pe with
+                      | Some k => [(snd pe, k)]
+                      | None => []
+                      end) pubs.
+
 Definition mon_sched (ops : list op) (obs : list opobs) : N :=
   let batches := all_batches obs in
   let flat := concat batches in
   let pubs := flat_map pubs_of ops in
   let early := flat_map pubs_of (before_close ops) in
-  (* 8: an operation did not finish although the model says it does (code 9 in its result) *)
-  if existsb (fun o => fst (fst o) =? 9) obs then 8
-  (* 7: a producer was kept waiting while the broker did not answer *)
-  else if existsb (fun o => fst (fst o) =? 3) obs then 7
+  let dkeys := delivered_keys flat pubs in
+  let scoped := filter (fun a => env_scoped_kind (e_kind (fst a))) dkeys in
   (* 4: shutdown completed, but an event accepted before Close was called never reached the broker *)
-  else if close_returned obs &&
+  if close_returned obs &&
           negb (forallb (fun pe => negb (is_event_kind (e_kind (snd pe))) ||
                                    existsb (fun m => same_pub m pe) flat) early) then 4
   (* 1: something reached the broker twice, or was never published, or is not what was published *)
@@ -404,19 +409,15 @@ Definition mon_sched (ops : list op) (obs : list opobs) : N :=
   (* 3: batch size outside 1..100 *)
   else if negb (forallb (fun b => (1 <=? Nlen b) && (Nlen b <=? 100)) batches) then 3
   (* 5: two events about the same environment carry different keys *)
-  else if negb (forallb (fun pe1 => forallb (fun pe2 =>
-            negb (env_scoped_kind (e_kind (snd pe1)) && env_scoped_kind (e_kind (snd pe2)) &&
-                  str_eqb (e_env (snd pe1)) (e_env (snd pe2))) ||
-            match key_of_delivered flat pe1, key_of_delivered flat pe2 with
-            | Some k1, Some k2 => option_eqb str_eqb k1 k2
-            | _, _ => true
-            end) pubs) pubs) then 5
+  else if negb (forallb (fun a => forallb (fun b =>
+            negb (str_eqb (e_env (fst a)) (e_env (fst b))) || option_eqb str_eqb (snd a) (snd b))
+            scoped) scoped) then 5
   (* 6: a key is not the documented one *)
-  else if negb (forallb (fun pe =>
-            match key_of_delivered flat pe with
-            | Some k => option_eqb str_eqb k (documented_key (snd pe))
-            | None => true
-            end) pubs) then 6
+  else if negb (forallb (fun a => option_eqb str_eqb (snd a) (documented_key (fst a))) dkeys) then 6
+  (* 7: a producer was kept waiting while the broker did not answer *)
+  else if existsb (fun o => fst (fst o) =? 3) obs then 7
+  (* 8: an operation did not settle although the model says it does (result code 9) *)
+  else if existsb (fun o => fst (fst o) =? 9) obs then 8
   else 0.
 
 Definition mon19 (c : c19_case) : N :=
